@@ -2,12 +2,12 @@
 from .. import bb, chain as K, gen_index as GI
 
 NAMESPACE = "Rbp.Props.C04"
-REQUIRED = ["walk_eq_active", "index_is_active_chain", "competitors_invisible", "filter_spec"]
+REQUIRED = ["walk_eq_active", "index_is_active_chain", "competitors_invisible", "filter_spec", "tip_is_greatest_validated"]
 LEAN_FILES = ["Rbp/Model/Walk.lean", "Rbp/Model/Run.lean", "Rbp/Proofs/Index.lean"]
 RULE = ("black-box runs on generated block indexes = active chain 0..T (validity VALID_SCRIPTS, data+undo) plus 1..5 competitors drawn from: header-only records at/below/above the tip, never-connected stale siblings with data "
         "(also on top of the tip), failed blocks (FAILED_VALID / FAILED_CHILD, with and without data, also above the tip), once-connected then invalidated branches (validity VALID_SCRIPTS + data + FAILED_VALID/FAILED_CHILD, also reaching above the tip), once-active reorged-out branches of length 1..5 with tips below T, foreign f/l/F/R keys; competitor hashes are ground to sort "
         "before or after the active record of their height; kv insertion order shuffled. Observables: hash/hashPrev/height columns of blocks-*.csv vs the active chain (spec-level oracle) and every callback's output vs the model. "
-        "non-trivial = at least one competitor with block data; distinct = distinct scenarios")
+        "non-trivial = at least one competitor with block data; distinct = distinct scenarios. Family tip-ties (model vs code only, no oracle): a second fully validated branch with data ending at exactly the active tip's height, hashes ground to either side")
 ASSUMPTIONS = ["a competitor of validity VALID_SCRIPTS with data at a height >= T cannot be told from the active tip from blocks/index alone (no cumulative work is stored per record in a form this tool reads): outside the domain, as stated in DESIGN.md C04"]
 
 CALLBACKS = ["csvdump", "csvdump", "csvdump", "unspentcsvdump", "balances", "simplestats", "opreturn"]
@@ -62,6 +62,17 @@ def correspondence(ctx):
                 k = next((j for j, (a, b) in enumerate(zip(got or [], want)) if a != b), None)
                 ctx.disagree("active-chain-oracle", bb.describe(s), {"exit": res.exit, "first_diff_row": k, "impl_row": (got or [None])[k] if k is not None and got else None, "n_rows": len(got or [])},
                              {"want_row": want[k] if k is not None else None, "n_rows": len(want)}, True, {"scenario": bb.scenario_dump(s), "observable": "delivered-is-active-chain"})
+
+    # ties at the tip (outside the property's domain — see ASSUMPTIONS — but inside the model: tip_is_greatest_validated): a second
+    # fully validated branch ending at the active tip's height; the code and the model must follow the same one
+    ties = []
+    for i in range(ctx.n(16, 160)):
+        s, _ = GI.competitor_scenario(r, coin=["bitcoin", "litecoin", "testnet3"][i % 3], callback="csvdump", kinds=["tie", "tie", "stale", "header-only", "foreign-keys"])
+        s.meta["i"] = i
+        if "tie" in s.meta["competitors"]:
+            ties.append(s)
+    if ties:
+        bb.check(ctx, "tip-ties", ties, comparators("csvdump"), nontrivial=lambda s, m: True)
 
 
 def replay(ctx, rep, corpus=None):
